@@ -452,7 +452,7 @@ class Renderer:
         if label:
             die("%s: labelled for loop" % self.fn.key)
         itv = "__it%d" % k
-        into = self.ctx.into_iter_fn(self.fn, k, it_text)
+        into = self.into_iter_fn(k)
         return ("{" + before + "let mut %s = %s(%s);\n" % (itv, into, self.rspan(n, n["iter"]))
                 + self.stmt_text("loop", str(k), "after_iter")
                 + self.loop_attrs(k) + "loop" + self.loop_spec(k) + "{" + entry
@@ -477,8 +477,21 @@ class Renderer:
     # -- R8: E?  ->  match E { Ok(v) => v, Err(e) => return Err(From::from(e)) }
     def r_Try(self, n):
         self.log.append("R8 ?->match")
-        conv = self.ctx.try_conv(self.fn)
+        k = self.counts.get("try", 0)
+        self.counts["try"] = k + 1
+        conv = "::core::convert::From::from"
+        for d in self.rw.get("try_conv", []):
+            # try_conv <ordinal|*> <function|id> : the From impl selected by the k-th `?` (trait impls are inherent here)
+            if d[0] in ("*", str(k)):
+                conv = "" if d[1] == "id" else d[1]
         return "(match %s { Ok(__v) => __v, Err(__e) => return Err(%s(__e)), })" % (self.rspan(n, n["expr"]), conv)
+
+    def into_iter_fn(self, k):
+        # `rw: into_iter <k> plain`: the expression already is an iterator (IntoIterator::into_iter is the identity on iterators)
+        for d in self.rw.get("into_iter", []):
+            if d[0] in ("*", str(k)) and d[1] == "plain":
+                return ""
+        return "::core::iter::IntoIterator::into_iter"
 
     # -- nested items (use declarations inside bodies)
     def r_Item(self, n):
@@ -646,8 +659,19 @@ class Renderer:
         else:
             return None
         self.log.append("R13 E.map(f).collect() -> push loop (synthesized loop #%d)" % k)
-        into = self.ctx.into_iter_fn(self.fn, k, self.t(base["s"], base["e"]))
-        return ("{ let mut __v = Vec::new();\n let mut __it%d = %s(%s);\n" % (k, into, self.render(base))
+        vty = ""
+        for d in self.rw.get("collect_ty", []):
+            # collect_ty <k> <type> : ghost-irrelevant type annotation for the collected Vec (rustc checks it)
+            if d[0] == str(k):
+                vty = ": " + " ".join(d[1:])
+        if RANGE_FOR.match(self.t(base["s"], base["e"]).strip()):
+            return ("{ let mut __v%s = Vec::new();\n" % vty + self.stmt_text("loop", str(k), "before") + self.loop_attrs(k)
+                    + "for %s in __r%d: %s" % (pat, k, self.render(base)) + self.loop_spec(k)
+                    + "{" + self.stmt_text("loop", str(k), "body_entry") + " __v.push(%s);" % val
+                    + self.stmt_text("loop", str(k), "body_exit") + "}\n"
+                    + self.stmt_text("loop", str(k), "after") + " __v }")
+        into = self.into_iter_fn(k)
+        return ("{ let mut __v%s = Vec::new();\n let mut __it%d = %s(%s);\n" % (vty, k, into, self.render(base))
                 + self.stmt_text("loop", str(k), "before") + self.loop_attrs(k) + "loop" + self.loop_spec(k)
                 + "{" + self.stmt_text("loop", str(k), "body_entry")
                 + " match __it%d.next() { Some(%s) => { __v.push(%s); } None => break, }" % (k, pat, val)
